@@ -11,7 +11,9 @@ DEDUCTIVE = [{"module": "rnapolis.tertiary", "sidecar": "contracts.mapping_c",
                           "BasePair3D.reverse", "Structure3D.find_residue@body"]},
              {"module": "rnapolis.tertiary", "sidecar": "contracts.mapping_ext_c",
               "targets": ["Mapping2D3D.extended_dot_bracket", "Mapping2D3D.__generate_dot_bracket_per_strand",
-                          "Mapping2D3D.dot_bracket", "Mapping2D3D.bpseq@body"]},
+                          "Mapping2D3D.dot_bracket", "Mapping2D3D.bpseq@body",
+                          "Mapping2D3D.strands_sequences@body", "Mapping2D3D.__generate_bpseq@numbering", "lemma:same_numbering",
+                          "Mapping2D3D.all_dot_brackets"]},
              # the orientation nt1 < nt2 by which canonical pairs are selected (conflict resolution, rows of the extended dot-bracket)
              # is the residue order: the contract of C05 / C04 (lexicographic on model, chain, number, insertion code)
              {"module": "rnapolis.tertiary", "sidecar": "contracts.annotator_c", "targets": ["Residue3D.__lt__"]}]
